@@ -129,13 +129,19 @@ pub struct Peer {
     /// offset in `log` where distribution-mode frames start (after the handshake)
     pub dist_off: usize,
     pub closed: bool,
+    /// when set, `send` writes only the first `split_at` bytes of what it is given; the rest goes out at the next `pump`
+    /// (that is, after the library has had a turn with the first part)
+    pub split_at: Option<usize>,
+    tail: Vec<u8>,
+    /// pumps left before the held-back part is written (the library gets that many scheduler turns, timer turns included)
+    tail_wait: u32,
 }
 
 impl Peer {
     pub fn new(sock: std::net::TcpStream) -> Peer {
         sock.set_nonblocking(true).unwrap();
         sock.set_nodelay(true).unwrap();
-        let p = Peer { sock, log: vec![], eof: false, dist_off: 0, closed: false };
+        let p = Peer { sock, log: vec![], eof: false, dist_off: 0, closed: false, split_at: None, tail: vec![], tail_wait: 0 };
         p.quickack();
         p
     }
@@ -146,6 +152,7 @@ impl Peer {
     /// non-blocking drain of everything readable; returns the number of new bytes
     pub fn pump(&mut self) -> usize {
         if self.closed { return 0; }
+        if !self.tail.is_empty() { self.tail_wait = self.tail_wait.saturating_sub(1); if self.tail_wait == 0 { let t = std::mem::take(&mut self.tail); let _ = self.write_now(&t); } }
         let mut n = 0;
         let mut buf = [0u8; 65536];
         loop {
@@ -161,6 +168,13 @@ impl Peer {
     }
     pub fn send(&mut self, b: &[u8]) -> bool {
         if self.closed { return false; }
+        if !self.tail.is_empty() { let t = std::mem::take(&mut self.tail); if !self.write_now(&t) { return false; } }
+        match self.split_at {
+            Some(k) if b.len() > k => { self.tail = b[k..].to_vec(); self.tail_wait = 150; let head = b[..k].to_vec(); self.write_now(&head) }
+            _ => self.write_now(b),
+        }
+    }
+    fn write_now(&mut self, b: &[u8]) -> bool {
         let mut off = 0;
         let t0 = std::time::Instant::now();
         while off < b.len() {
@@ -179,10 +193,12 @@ impl Peer {
     }
     pub fn close(&mut self) {
         if !self.closed {
+            if !self.tail.is_empty() { let t = std::mem::take(&mut self.tail); let _ = self.write_now(&t); }
             let _ = self.sock.shutdown(std::net::Shutdown::Both);
             self.closed = true;
         }
     }
+    pub fn holding_back(&self) -> bool { !self.tail.is_empty() }
     /// distribution-mode frames (4-byte length) completely received so far
     pub fn dist_frames(&self) -> (Vec<Vec<u8>>, Vec<u8>) {
         vcore::proto::deframe(&self.log[self.dist_off..], 4)
@@ -206,6 +222,11 @@ thread_local! { static PRE_START_USE: std::cell::Cell<bool> = const { std::cell:
 /// When set, `node_world_opt` makes a reference and spawns a process on the node before starting it.
 pub fn set_pre_start_use(v: bool) { PRE_START_USE.with(|c| c.set(v)); }
 pub fn pre_start_use() -> bool { PRE_START_USE.with(|c| c.get()) }
+thread_local! { static EARLY_IDS: std::cell::RefCell<Vec<(u32, u32, u32)>> = const { std::cell::RefCell::new(Vec::new()) }; }
+/// (id, serial, creation) of the processes spawned before the node was started (see `set_pre_start_use`).
+pub fn early_ids() -> Vec<(u32, u32, u32)> { EARLY_IDS.with(|c| c.borrow().clone()) }
+pub fn note_early_id(p: (u32, u32, u32)) { EARLY_IDS.with(|c| c.borrow_mut().push(p)); }
+pub fn clear_early_ids() { EARLY_IDS.with(|c| c.borrow_mut().clear()); }
 pub fn set_epmd_creation(v: Option<u32>) { EPMD_CREATION_OVERRIDE.with(|c| c.set(v)); }
 pub fn epmd_creation() -> u32 { EPMD_CREATION_OVERRIDE.with(|c| c.get()).unwrap_or(EPMD_CREATION) }
 
@@ -368,9 +389,12 @@ impl World {
         let mut rounds = 0;
         while stable < 4 && rounds < 10_000 {
             self.yield_once().await;
+            // while part of a frame is held back a little time passes (1 ms per round, 150 ms in all): a frozen clock would
+            // hide a wait that gives up too early
+            if peer.holding_back() { tokio::time::advance(std::time::Duration::from_millis(1)).await; }
             peer.pump();
             let now = (self.gates.arrivals.load(Ordering::SeqCst), peer.log.len(), probe(), peer.eof);
-            if now == last { stable += 1; } else { stable = 0; last = now; }
+            if now == last && !peer.holding_back() { stable += 1; } else { stable = 0; last = now; }
             rounds += 1;
         }
     }
